@@ -267,6 +267,46 @@ def run(ctx):
                        msg=f'the search returns {p.ret} on a path without the test idesc == desc (conditions: {T[-3:]})')
     r.require_min(3)
 
+    # ---------------- R14k no success without looking the descriptor up
+    r = ctx.rule('R14k', 'every entry point that takes a descriptor looks it up on every path that returns a non-negative value',
+                 'a shortcut that returns 0 before the look-up ("nothing to release") accepts destroyed and never-issued descriptors')
+    from .. import api as _api14
+    nk = 0
+    for a_ in _api14.public_api(ctx.root):
+        fnk = P.fns.get('@' + a_['name'])
+        if fnk is None or not fnk.params or fnk.params[0][0] != 'i32' or fnk.retty.strip() != 'i32':
+            continue
+        looks = [i_ for i_ in fnk.insts() if i_.op == 'call' and 'get_by_desc' in i_.callee and strip_int_casts(fnk, i_.ops[0]) == fnk.params[0][1]]
+        if not looks:
+            continue
+        nk += 1
+        bad = None
+        for rt in [i_ for i_ in fnk.insts() if i_.op == 'ret' and i_.ops]:
+            # expand merges of return values down to (value, block it comes from)
+            inc, st_, seen_ = [], [(rt.ops[0], None)], set()
+            while st_:
+                v0, lab0 = st_.pop()
+                d_ = fnk.defs.get(v0)
+                if d_ is not None and d_.op == 'phi' and (v0, lab0) not in seen_:
+                    seen_.add((v0, lab0))
+                    st_ += list(d_.incoming)
+                else:
+                    inc.append((v0, lab0))
+            for v_, lab in inc:
+                if re.match(r'^-\d+$', v_):
+                    continue
+                goal_blk = fnk.blocks[lab] if lab else rt.bb
+                hit = reaches_without(fnk, fnk.entry, lambda i2, gb=goal_blk: i2.bb is gb and i2 is gb.insts[-1], lambda i2: i2 in looks, 0)
+                if hit is not None:
+                    bad = (v_, goal_blk)
+        inst = f'{fnk.name}: a non-negative result implies the descriptor was looked up'
+        if bad:
+            r.fail(inst, func=fnk.name, sig=f'returns {bad[0][:30]} without a look-up', loc=bad[1].insts[-1].loc,
+                   msg=f'{fnk.name} can return {bad[0]} on a path that never calls the descriptor look-up: a destroyed or never issued descriptor is accepted there')
+        else:
+            r.ok(inst, func=fnk.name, loc=looks[0].loc)
+    r.require_min(9)
+
     # ---------------- R14j unlink rewrites the link that points at the removed instance
     r = ctx.rule('R14j', 'unregister: the pointer that is overwritten is one that was compared equal to the removed instance (head or predecessor link)',
                  'rewriting another node\'s link (e.g. the head\'s instead of the predecessor\'s) cuts live instances out of the registry')
